@@ -26,6 +26,7 @@ VM_ENTRY = {"sexp_apply", "sexp_apply1", "sexp_apply2", "sexp_apply3", "sexp_app
 DEPTH_PARAM = {
     # function: parameter name
     "analyze": "depth",
+    "analyze_lambda": "depth",
     "sexp_equalp_bound": "depth",
     "sexp_write_one": "bound",
     "sexp_strip_synclos_bound": "depth",
@@ -165,43 +166,83 @@ def verify_depth_param(fn, pname, cycle_names):
     #     edges leads to the exit without any recursive call being reachable
     dom = dominators(fn)
     guard = False
+    direction = None      # 'up': recursion stops when P is large; 'down': when P is small
+    from cfg import implied, linform
     for b in fn.blocks.values():
         if b.cond is None or len(b.succs) != 2:
             continue
         if pv not in fn.refs_in(b.cond):
             continue
-        cn = [x for x in fn.subtree(b.cond) if fn.nodes[x]["k"] == "bin" and
-              fn.nodes[x]["o"] in ("<", "<=", ">", ">=", "==", "!=") and pv in fn.refs_in(x)]
-        if not cn:
-            continue
         if not all(b.id in dom.get(r, ()) or b.id == r for r in rec_blocks):
             continue
-        for s in b.succs:
+        for idx, s in enumerate(b.succs):
             if s is None or s < 0:
                 continue
             reach = block_reach(fn, s) | {s}
-            if not (reach & rec_blocks) and (fn.exit in reach):
+            if (reach & rec_blocks) or (fn.exit not in reach):
+                continue
+            # this edge leaves without recursing: what does it say about P?
+            cond = fn.strip(b.cond)
+            # clang splits short-circuit operators over blocks: the block that ends the whole
+            # `A || B` / `A && B` evaluates only its rightmost operand
+            while fn.nodes[cond]["k"] == "bin" and fn.nodes[cond]["o"] in ("||", "&&"):
+                cond = fn.strip(fn.nodes[cond]["c"][1])
+            for (a, pol) in implied(fn, cond, idx == 0):
+                an = fn.nodes[a]
+                if an["k"] != "bin" or an["o"] not in ("<", "<=", ">", ">="):
+                    continue
+                l, r = an["c"]
+                o = an["o"]
+                if not pol:
+                    o = {"<": ">=", "<=": ">", ">": "<=", ">=": "<"}[o]
+                if pv in fn.refs_in(l) and pv not in fn.refs_in(r):
+                    d = "up" if o in (">", ">=") else "down"
+                elif pv in fn.refs_in(r) and pv not in fn.refs_in(l):
+                    d = "down" if o in (">", ">=") else "up"
+                else:
+                    continue
                 guard = True
+                direction = d
         if guard:
             break
     if not guard:
         return False, "no comparison on `%s` dominates the recursive calls with an exit edge that cannot recurse" % pname
-    # (2) every call into the cycle passes a changed P
+    # net change of P by in-place updates (++depth in the guard, depth-- before the loop)
+    bump = 0
+    for nd in fn.nodes:
+        if nd["k"] == "un" and nd["o"] in ("pre++", "post++", "pre--", "post--"):
+            x = fn.strip(nd["c"][0])
+            if fn.nodes[x]["k"] == "ref" and fn.nodes[x].get("d") == pv:
+                bump += 1 if "++" in nd["o"] else -1
+    # (2) every call into the cycle passes P moved in the guard's direction
     ncalls = 0
+    bad = []
     for i, nd in enumerate(fn.nodes):
         if nd["k"] == "call" and nd.get("o") in cycle_names:
             ncalls += 1
-            passes = False
+            verdict = None
             for a in nd["c"][1:]:
                 refs = fn.refs_in(a)
-                a0 = fn.strip(a)
-                bare = fn.nodes[a0]["k"] == "ref"
-                if pv in refs:
-                    passes = passes or (mutated if bare else True)
-                if refs & derived:
-                    passes = True
-            if not passes:
-                return False, "recursive call %s does not pass a changed `%s`" % (nd["o"], pname)
+                if not (pv in refs or (refs & derived)):
+                    continue
+                lf = linform(fn, a)
+                coef = lf[1].get(pname)
+                if coef != 1 or len(lf[1]) != 1:
+                    verdict = verdict or "unknown"
+                    continue
+                step = lf[0] + bump
+                ok = (step > 0) if direction == "up" else (step < 0)
+                verdict = "ok" if ok else "wrong"
+                if ok:
+                    break
+            if verdict != "ok":
+                why = "does not pass a changed `%s`" % pname if verdict is None else \
+                    ("passes `%s` moved against the bound (the guard stops the recursion when it is %s)"
+                     % (pname, "large" if direction == "up" else "small")) if verdict == "wrong" else \
+                    "passes a value of `%s` the rule cannot order" % pname
+                bad.append((nd["o"], "recursive call %s %s" % (nd["o"], why)))
+    if bad:
+        return False, bad
     return True, "%d recursive calls pass a changed `%s`" % (ncalls, pname)
 
 
@@ -236,18 +277,25 @@ def run(prog, res, prop, rule, roots=None, floor=10, cg=None, only_units=None, k
         stat.obligations += 1
         bounders = set()
         notes = []
+        partial = {}      # verified guard, but these callees are reached with an unbounded depth
         for f in comp:
             if f.name in DEPTH_PARAM:
                 ok, why = verify_depth_param(f, DEPTH_PARAM[f.name], names)
-                verified[f.name] = (ok, why)
                 if ok:
+                    verified[f.name] = (ok, why)
                     bounders.add(f)
+                elif isinstance(why, list):
+                    partial[f] = {c for (c, _w) in why}
+                    for (_c, w) in why:
+                        if "%s: %s" % (f.name, w) not in notes:
+                            notes.append("%s: %s" % (f.name, w))
                 else:
                     notes.append("%s: %s" % (f.name, why))
             elif f.name in BY_CONSTRUCTION:
                 bounders.add(f)
         rest = [f for f in comp if f not in bounders]
-        sub = sccs_of(cg, {f: {g for g in direct.get(f, ()) if g in rest} for f in rest}, rest)
+        sub = sccs_of(cg, {f: {g for g in direct.get(f, ()) if g in rest and
+                               (f not in partial or g.name in partial[f])} for f in rest}, rest)
         rep = sorted(names)[0]
         if not sub:
             stat.discharged += 1
@@ -265,10 +313,10 @@ def run(prog, res, prop, rule, roots=None, floor=10, cg=None, only_units=None, k
             adv = all(n in ADVISORY for n in n2)
             disc = "cycle through " + anchor
             mine = [x for x in notes if x.split(":")[0] in n2]
-            if mine:
-                disc += " (" + "; ".join(mine) + ")"
-            res.add(Finding(prop, rule + ".unbounded", anchor, disc, f0.where(),
-                            "recursion cycle {%s} has no depth bound: nesting depth of user-shaped input maps to C stack "
-                            "depth%s" % (", ".join(n2[:6]), ("; " + "; ".join(notes)) if notes else ""),
-                            unit=f0.unit.display, advisory=adv, extra={"cycle": n2}))
+            for note in (mine or [None]):
+                d = disc + (" (" + note + ")" if note else "")
+                res.add(Finding(prop, rule + ".unbounded", anchor, d, f0.where(),
+                                "recursion cycle {%s} has no depth bound: nesting depth of user-shaped input maps to C stack "
+                                "depth%s" % (", ".join(n2[:6]), ("; " + note) if note else ""),
+                                unit=f0.unit.display, advisory=adv, extra={"cycle": n2}))
     return stat
